@@ -401,6 +401,14 @@ func (e *env) judge(p *position, a *attempt, v variant, fresh bool) (verdict, st
 	if b == nil {
 		return verdict{}, why
 	}
+	if len(b.out.Stmts) == 0 && !p.silent && p.altBenign != "" && len(a.out.Stmts) > 0 {
+		// the front end takes this string but not the harmless one of its class: compare with the number
+		nb, why := e.benignFor(p, a.form, "number", true, v, fresh)
+		if nb == nil || len(nb.out.Stmts) == 0 {
+			return verdict{}, "neither the harmless string nor the harmless number is accepted: " + why
+		}
+		return compareSlot(nb.lexed, lexAll(a.out.Stmts), p.altBenign), ""
+	}
 	if len(b.out.Stmts) == 0 && !p.silent {
 		return verdict{}, fmt.Sprintf("the harmless request sent no statement (status %d %s)", b.out.Status, clip(b.out.Body+b.out.Err, 200))
 	}
